@@ -123,6 +123,7 @@ class SimDisk:
         self.enospc = False  # sticky after W3 until free_space()
         self.write_hook = None  # callable(kind, writer, payload, size_before, size_after, append_only)
         self.crash_hook = None  # callable(): snapshot the disk at the crash instant
+        self.fine_grained = False  # observe the file at every C-call boundary inside a write call (C20 golden run)
         self._saved = None
 
     # ---- installation
@@ -202,11 +203,42 @@ class SimDisk:
             self.ctx.log(kind, name, "ENOSPC-sticky")
             raise OSError(errno.ENOSPC, "simulated ENOSPC (sticky)")
         self.in_wrapped_write = True
+        inflight = []  # (size, bytes beyond size_before) seen at C-call boundaries INSIDE the write call
+        if self.fine_grained:
+            import sys
+
+            last = [size_before]
+
+            def prof(frame, event, arg, _fd=fd):
+                if event[0] == "c":  # c_call / c_return / c_exception
+                    try:
+                        st = os.fstat(_fd).st_size
+                    except OSError:
+                        return
+                    if st != last[0]:
+                        last[0] = st
+                        inflight.append((st, os.pread(_fd, max(0, st - size_before), size_before) if st > size_before else b""))
+
+            sys.setprofile(prof)
         try:
             orig(writer, payload)
         finally:
+            if self.fine_grained:
+                import sys
+
+                sys.setprofile(None)
             self.in_wrapped_write = False
         size_after = os.fstat(fd).st_size
+        if inflight:
+            final_tail = os.pread(fd, max(0, size_after - size_before), size_before)
+            for st, tail in inflight:
+                self.ctx.probe("in-flight-states-inside-a-write")
+                if st < size_before or final_tail[: len(tail)] != tail:
+                    self.ctx.log("IN-FLIGHT-NOT-PREFIX", name, st - size_before, len(final_tail))
+                    raise Violation("C20/append-only/in-flight-state-inside-a-write-is-not-a-prefix",
+                                    f"{kind} #{k} on {name}: while the call was running the file held {st - size_before} bytes beyond the "
+                                    f"previous end that are not a prefix of the {len(final_tail)} bytes finally appended (a crash there leaves invalid data)",
+                                    {"api": kind, "write_index": k})
         pos_after = fo.tell()
         grew = size_after - size_before
         self.ctx.log(kind, name, size_before, grew)
